@@ -90,6 +90,32 @@ pub struct Step {
     pub limbs: Vec<u64>,
     pub n: u8,
     pub flag: bool,
+    /// relation of the operand to the accumulator: 0 (or absent) = `x` as given; 1: x := acc;
+    /// 2: x := -acc; 3: x := acc + (rv << 64*(rk mod limbs)) * R^-1, i.e. a value whose
+    /// *Montgomery representation* differs from acc's in one limb; 4: x := acc + 2^(rk mod bits)
+    #[serde(default)]
+    pub rel: u8,
+    #[serde(default)]
+    pub rk: u16,
+    #[serde(default)]
+    pub rv: u64,
+}
+
+/// the operand actually used at this step
+pub fn eff_x(f: &Fld, acc: &N, s: &Step) -> N {
+    let nlimbs = ((f.bits + 63) / 64) as u64;
+    match s.rel {
+        1 => acc.clone(),
+        2 => f.neg(acc),
+        3 => {
+            let r = N::one() << (64 * nlimbs);
+            let rinv = f.inv(&(r % &f.m)).expect("R invertible");
+            let d = N::from(s.rv) << (64 * (s.rk as u64 % nlimbs));
+            f.add(acc, &f.mul(&(d % &f.m), &rinv))
+        }
+        4 => f.add(acc, &((N::one() << (s.rk as u64 % f.bits as u64)) % &f.m)),
+        _ => &s.x.0 % &f.m,
+    }
 }
 
 #[derive(Clone, Debug, Serialize, Deserialize)]
@@ -117,7 +143,7 @@ pub enum MOut {
 
 pub fn model_step(f: &Fld, acc: &N, s: &Step) -> MOut {
     use FForm::*;
-    let x = &s.x.0 % &f.m;
+    let x = eff_x(f, acc, s);
     let y = &s.y.0 % &f.m;
     let k = (s.n % 4) as usize;
     let items: Vec<N> = [acc.clone(), x.clone(), y.clone()].into_iter().take(k).collect();
@@ -366,7 +392,7 @@ macro_rules! runner {
             let mut macc: N = init % &f.m;
             let mut acc: $T = conv(&macc);
             for (i, s) in steps.iter().enumerate() {
-                let x = &s.x.0 % &f.m;
+                let x = eff_x(f, &macc, s);
                 let y = &s.y.0 % &f.m;
                 let want = model_step(f, &macc, s);
                 if let MOut::Excluded = want {
@@ -477,7 +503,10 @@ fn exp_limbs() -> BoxedStrategy<Vec<u64>> {
 
 pub fn step(forms: Vec<FForm>, m: N) -> impl Strategy<Value = Step> {
     let n = forms.len();
-    (any::<u16>(), gen::fe(&m), gen::fe(&m), exp_limbs(), any::<u8>(), any::<bool>()).prop_map(move |(i, x, y, limbs, n_items, flag)| Step { form: forms[pick(i, n)], x, y, limbs, n: n_items, flag })
+    let rel = prop_oneof![10 => Just(0u8), 1 => Just(1u8), 1 => Just(2u8), 2 => Just(3u8), 1 => Just(4u8)];
+    let rv = prop_oneof![Just(1u64), Just(u64::MAX), Just(1u64 << 63), any::<u64>()];
+    (any::<u16>(), gen::fe(&m), gen::fe(&m), exp_limbs(), any::<u8>(), any::<bool>(), rel, any::<u16>(), rv)
+        .prop_map(move |(i, x, y, limbs, n_items, flag, rel, rk, rv)| Step { form: forms[pick(i, n)], x, y, limbs, n: n_items, flag, rel, rk, rv })
 }
 
 fn chain(bk: Bk, f: FId) -> BoxedStrategy<Case> {
@@ -540,11 +569,14 @@ impl Property for C10 {
                     for (a, b) in &pairs {
                         if matches!(form, FForm::FPow | FForm::Power) {
                             for e in &exps {
-                                v.push(Case { bk, f, init: Num(a.clone()), steps: vec![Step { form, x: Num(b.clone()), y: Num(a.clone()), limbs: e.clone(), n: 3, flag: true }] });
+                                v.push(Case { bk, f, init: Num(a.clone()), steps: vec![Step { form, x: Num(b.clone()), y: Num(a.clone()), limbs: e.clone(), n: 3, flag: true, rel: 0, rk: 0, rv: 0 }] });
                             }
                         } else {
+                            for (rel, rk, rv) in [(1u8, 0u16, 0u64), (2, 0, 0), (3, 0, 1), (3, 1, 1), (3, 2, u64::MAX), (3, 3, 1), (3, 5, 1 << 63), (4, 0, 0), (4, 200, 0)] {
+                                v.push(Case { bk, f, init: Num(a.clone()), steps: vec![Step { form, x: Num(b.clone()), y: Num(a.clone()), limbs: vec![], n: 2, flag: true, rel, rk, rv }] });
+                            }
                             for (n_items, flag) in [(3u8, true), (2, false), (1, true), (0, false)] {
-                                v.push(Case { bk, f, init: Num(a.clone()), steps: vec![Step { form, x: Num(b.clone()), y: Num(a.clone()), limbs: vec![], n: n_items, flag }] });
+                                v.push(Case { bk, f, init: Num(a.clone()), steps: vec![Step { form, x: Num(b.clone()), y: Num(a.clone()), limbs: vec![], n: n_items, flag, rel: 0, rk: 0, rv: 0 }] });
                             }
                         }
                     }
